@@ -38,7 +38,7 @@ CONSTANTS Threads,        \* e.g. {"T1", "T2", "T3"}
           MaxCalls,       \* calls of load_module/load_repository per thread
           Order,          \* "remove_then_insert" | "insert_then_remove"
           Check2Removes,  \* BOOLEAN
-          HostVariant     \* "intended" | "as_shipped"  (part b)
+          HostVariant     \* "intended" | "as_shipped" | "unknown_only"  (part b)
 
 NoOne == "none"
 NoKey == "nokey"
@@ -263,7 +263,11 @@ CodeDubious(r) ==
 
 \* rsync.rs:305, rrdp/base.rs:452: a request is started unless filtered
 \* (the same predicate at both call sites, so the kind does not matter in the model).
-Requests(r, kind, allow) == r.parses /\ ~(~allow /\ CodeDubious(r))
+\* known: the cache holds a copy of this repository from an earlier run (one with the option on): the filter is
+\* applied before the copy is looked at, so it plays no role - except in the variant "unknown_only", where only
+\* repositories seen for the first time are filtered.
+Requests(r, kind, allow, known) ==
+  r.parses /\ ~(~allow /\ CodeDubious(r) /\ (HostVariant = "unknown_only" /\ kind = "rpkiNotify" => ~known))
 
-C31_Row(r, kind, allow) == MustNotFetch(r, allow) => ~Requests(r, kind, allow)
+C31_Row(r, kind, allow, known) == MustNotFetch(r, allow) => ~Requests(r, kind, allow, known)
 =============================================================================
